@@ -5,6 +5,7 @@ import (
 	"fmt"
 	"os"
 	"path/filepath"
+	"runtime/debug"
 	"runtime/pprof"
 	"sort"
 	"strconv"
@@ -491,8 +492,14 @@ func (w *wk) run(mode string, specs []string) (res BatchOut) {
 	}
 	for i, o := range all {
 		vctl.SetActor("read/A")
-		o.a[1] = readBug(A, o.id)
-		o.a[2] = readBug(A, o.id)
+		o.a[1], o.a[2] = o.a[0], o.a[0]
+		if o.a[0].Err == "" || !strings.HasPrefix(o.class, "invalid:") {
+			// re-read everything that was ordered or may be ordered (a history that must be refused and
+			// was refused is not read again)
+			o.a[1] = readBug(A, o.id)
+			o.a[2] = readBug(A, o.id)
+			b.count("read_three_times")
+		}
 		b.judge(o, o.d, o.a[0], "GoGitRepo replica A")
 		if o.a[1].key() != o.a[0].key() || o.a[2].key() != o.a[0].key() {
 			b.viol(o, "c03.determinism", "outcome-differs-between-reads", "three reads of the same ref on replica A give %s / %s / %s",
@@ -641,6 +648,7 @@ func Worker(args []string) {
 	}
 	scratch := world.ScratchRoot()
 	w := &wk{seed: seed, dir: filepath.Join(scratch, "w")}
+	debug.SetGCPercent(800) // go-git allocates heavily per object read; the heap stays small anyway
 	if pf := os.Getenv("VERIF_C03B_PROF"); pf != "" { // development aid: CPU profile of one worker
 		if f, err := os.Create(pf); err == nil {
 			pprof.StartCPUProfile(f)
